@@ -57,9 +57,9 @@ type mdb struct {
 	breakRows func(st *stmtRec, n int) int
 	// isolate: reads from a connection other than the one with the open
 	// transaction (txConn) see the table as it was when that transaction began
-	isolate bool
-	txConn  *mconn
-	reader  *mconn // the connection executing the current statement
+	isolate   bool
+	txConn    *mconn
+	reader    *mconn                         // the connection executing the current statement
 	afterExec func(*stmtRec, []mrow, []mrow) // (stmt, before images, after images) of committed writes
 	seqFn     func() uint64
 }
@@ -758,7 +758,7 @@ type mrows struct {
 	cols   []string
 	rows   []mrow
 	i      int
-	failAt int // >= 0: Next fails instead of delivering row failAt (or the end of the set)
+	failAt int            // >= 0: Next fails instead of delivering row failAt (or the end of the set)
 	bufs   map[int][]byte // per column: the reused read buffer for []byte values
 }
 
